@@ -417,7 +417,7 @@ fn bv_calls(rng: &mut Rng, bv: &BitVector, pairs: bool, nrandom: usize) -> BvCal
     let mut c = BvCalls { terms: Vec::new(), descs: Vec::new(), is9: Vec::new(), oob: false };
     let len = bv.len();
     let ones = bv.count_ones();
-    let zeros = len - ones;
+    let zeros = len.wrapping_sub(ones);
     for i in extremes(len) {
         mark(&format!("BitVector(len={}).get/rank/rank_zero({})", len, i));
         let r = catch(|| bv.get(i));
@@ -883,6 +883,21 @@ fn sparse_batch(out: &mut Out, rng: &mut Rng, bits: &[bool], pairs: bool) {
         let mut log = Log::new(K_SPARSE, format!("SparseVector(multiset,len={},loaded)", bits.len()));
         sparse_calls(&mut log, rng, &ms2, true, false);
         log.emit(out);
+        // the safe conversions of the multiset (and of the set) into a plain bitvector: its bits are the distinct
+        // positions, and everything BitVector caches must describe those bits, not the source's counts
+        for (what, conv) in [("BitVector::from(multiset SparseVector)", catch(|| BitVector::from(ms.clone()))),
+                             ("BitVector::copy_bit_vec(multiset SparseVector)", catch(|| BitVector::copy_bit_vec(&ms))),
+                             ("BitVector::from(SparseVector)", catch(|| BitVector::from(sv.clone())))] {
+            mark(what);
+            match conv {
+                Res::Ok(cb) => {
+                    let c = bv_calls(rng, &cb, false, 8);
+                    out.stat(if c.oob { "bv_converted.oob" } else { "bv_converted.clean" });
+                    emit_bv(out, bits, 0, false, c);
+                }
+                Res::Panic(k, _) => out.case("other", format!("COther {} [{}]", K_SPARSE, k), format!("{{\"what\":{:?},\"panic_class\":{}}}", what, k), true),
+            }
+        }
     }
 }
 
